@@ -86,6 +86,7 @@ func (fs *faultState) runPlan(plan map[int]int) (string, faultResult) {
 		}
 	})
 	vos.Reset(plan, callBudget)
+	vos.ResetTemp()
 	var buf bytes.Buffer
 	log.SetOutput(&buf)
 	func() {
@@ -102,7 +103,7 @@ func (fs *faultState) runPlan(plan map[int]int) (string, faultResult) {
 			upload.Run(upload.RunConfig{TelemetryDir: caseDir, UploadURL: url, StartTime: fs.start})
 		} else {
 			u := upload.VerifNewUploader(caseDir, url, fs.start, fs.cfg, "v9.9.9", nil)
-			u.Run()
+			u.RunAndClose()
 		}
 	}()
 	log.SetOutput(io.Discard)
